@@ -1465,14 +1465,23 @@ fn c10cli(args: &Args) -> ! {
                 }
                 let (status, out, err) = run_capped(cmd, None, Duration::from_secs(10));
                 let width = w.unwrap_or(80);
-                let want = if color == "on" { idl.get_multiline_colored(0, width) } else { idl.get_multiline(0, width) } + "\n";
+                // (the library's own rendering runs under catch_unwind: a formatter that panics is a verdict, not an engine failure)
+                let lib = std::panic::catch_unwind(std::panic::AssertUnwindSafe(|| (idl.get_multiline_colored(0, width) + "\n", idl.get_multiline(0, width) + "\n")));
+                let (want_colored, want_plain) = match lib {
+                    Ok(x) => x,
+                    Err(e) => {
+                        rep.violation("C10/cli/library-panicked", &format!("the library's formatter panicked at width {}: {}", width, panic_msg(&e)), case.clone());
+                        continue;
+                    }
+                };
+                let want = if color == "on" { want_colored } else { want_plain.clone() };
                 let got = String::from_utf8_lossy(&out).to_string();
                 rep.outcome(&format!("{}:{}", ti, got.len()));
                 if status != "exit:0" {
                     rep.violation("C10/cli/failed", &format!("varlink format exited with {}: {}", status, String::from_utf8_lossy(&err)), case.clone());
                     continue;
                 }
-                if color == "on" && strip_ansi(&got) != idl.get_multiline(0, width) + "\n" {
+                if color == "on" && strip_ansi(&got) != want_plain {
                     rep.violation("C10/cli/colored-differs-from-plain", &format!("the colored output minus escape sequences {:?} differs from the plain rendering", strip_ansi(&got).chars().take(400).collect::<String>()), case.clone());
                 }
                 if got != want {
